@@ -38,7 +38,7 @@ Qed.
 
 (* after a successful call GetAttributes reports one instance fewer / the same number / none, as the request demands *)
 Theorem getattributes_reflects : forall v v' user s uid r,
-  ver_ge v' (1, 0) = true -> deletes_empty_name v r = false ->
+  ver_ge v' (1, 0) = true ->
   snd (step v user s uid r) = Success ->
   exists u o o' ta, uid = Some u /\ find_obj u s = Some o /\ addressed v o r = Some ta /\ meets ta o o' /\
     (stored_type (o_type o) = true ->
@@ -52,8 +52,8 @@ Theorem getattributes_reflects : forall v v' user s uid r,
      | (TSensitive, _) => True
      end).
 Proof.
-  intros v v' user s uid r V NEQ H.
-  destruct (step_success_exact_partial _ _ _ _ _ NEQ H) as [u [o [o' [ta [U [F [A [AD [M _]]]]]]]]].
+  intros v v' user s uid r V H.
+  destruct (step_success_exact _ _ _ _ _ H) as [u [o [o' [ta [U [F [A [AD [M _]]]]]]]]].
   exists u, o, o', ta. repeat split; auto. intro T.
   assert (T' : forall f i a, meets (TInstance f i, a) o o' \/ meets (TAll f, a) o o' -> stored_type (o_type o') = true).
   { intros f i a [X|X]; destruct a; simpl in X; try contradiction.
